@@ -10,7 +10,7 @@ from props import emitted, pkgcheck
 
 ID = "C07"
 LEVEL = "other"
-CONTRACT_MODULES = ["contracts.decollision", "contracts.grouping"]
+CONTRACT_MODULES = ["contracts.decollision", "contracts.grouping", "contracts.opsparse"]
 EXPLANATION = ("Proved: the global method-name de-duplication never records a method name that an earlier operation already has (site "
                "assertions over the real loop, all operation lists). Exact structural check per corpus package (finite): for every (operation, "
                "tag) of the raw document exactly one public coroutine of that tag's client issues its HTTP method + path; method names are "
